@@ -587,3 +587,83 @@ Proof.
   try rewrite <- Ea. unfold printed_argv. destruct p as [po pp psb pe pm]. cbn [p_opts p_pos p_sub] in *.
   subst pp psb. rewrite !app_nil_r. exact R1.
 Qed.
+
+(** * 7. [printable] follows from [field_ok] (the attribute combinations of the matches-level round trip) *)
+Lemma forallb_repeat_nil f n : forallb (group_fits f) (repeat [] n) = true.
+Proof. induction n; [reflexivity|]. cbn [repeat forallb group_fits]. exact IHn. Qed.
+Lemma forallb_singletons f (ss : list bytes) : takes f = true -> forallb (group_fits f) (map (fun s => [s]) ss) = true.
+Proof. intros H. induction ss; [reflexivity|]. cbn [map forallb group_fits]. rewrite H, IHss. reflexivity. Qed.
+Lemma map_opt_cons_nonnil {A B} (g : A -> option B) x l ss : map_opt g (x :: l) = Some ss -> ss <> [].
+Proof. cbn. destruct (g x); [|discriminate]. destruct (map_opt g l); [|discriminate]. intros H; inversion H; discriminate. Qed.
+
+Lemma printable_of_ok f v gs : field_ok f -> ty_ok f = true -> f_is_positional f = false ->
+  takes f = action_takes_values (field_action f) ->
+  field_groups f v = Some (Some gs) -> field_form f gs /\ forallb (group_fits f) gs = true.
+Proof.
+  intros Hok Hty Hpos Htk Hg. unfold field_groups in Hg. unfold field_ok in Hok. unfold ty_ok in Hty. unfold field_form.
+  assert (Hact : forall T, f_ty f = T -> T <> TyOther -> field_action f = default_action (f_syn f) (f_t f)).
+  { intros T ET NT. rewrite ET in Hok. destruct T; try congruence; destruct Hok as [A D]; unfold field_action; rewrite A; reflexivity. }
+  assert (Hda : forall T, f_ty f = T -> default_action (f_syn f) (f_t f) =
+            match T with TyVec | TyOptionVec | TyVecVec | TyOptionVecVec => AAppend | TyOption | TyOptionOption => ASet
+            | _ => default_action (f_syn f) (f_t f) end).
+  { intros T ET. unfold default_action. unfold f_ty in ET. rewrite ET. destruct T; reflexivity. }
+  destruct (f_ty f) eqn:T; try discriminate Hty.
+  - destruct v; discriminate Hg.
+  - (* Vec *) rewrite (Hact _ eq_refl ltac:(discriminate)), (Hda _ eq_refl) in *. cbn [action_takes_values] in Htk.
+    destruct v; try discriminate Hg. destruct l as [|x l]; [discriminate Hg|].
+    destruct (map_opt (ps (f_t f)) (x :: l)) as [ss|] eqn:M; [|discriminate Hg]. rewrite Hpos in Hg. inversion Hg; subst.
+    split; [|apply forallb_singletons; exact Htk]. pose proof (map_opt_cons_nonnil _ _ _ _ M) as N. destruct ss; [congruence|discriminate].
+  - (* Option *) rewrite (Hact _ eq_refl ltac:(discriminate)), (Hda _ eq_refl) in *. cbn [action_takes_values] in Htk.
+    destruct v; try discriminate Hg. destruct o as [x|]; [|discriminate Hg].
+    destruct (ps (f_t f) x) as [s|]; [|discriminate Hg]. inversion Hg; subst. split; [eexists; reflexivity|].
+    cbn [forallb group_fits]. rewrite Htk. reflexivity.
+  - (* OptionOption *) rewrite (Hact _ eq_refl ltac:(discriminate)), (Hda _ eq_refl) in *. cbn [action_takes_values] in Htk.
+    destruct v; try discriminate Hg. destruct o as [[x|]|]; [| |discriminate Hg].
+    + destruct (ps (f_t f) x) as [s|]; [|discriminate Hg]. inversion Hg; subst. split; [eexists; reflexivity|].
+      cbn [forallb group_fits]. rewrite Htk. reflexivity.
+    + inversion Hg; subst. split; [eexists; reflexivity|reflexivity].
+  - (* OptionVec *) rewrite (Hact _ eq_refl ltac:(discriminate)), (Hda _ eq_refl) in *. cbn [action_takes_values] in Htk.
+    destruct v; try discriminate Hg. destruct o as [[|x l]|]; [| |discriminate Hg].
+    + inversion Hg; subst. split; [discriminate|reflexivity].
+    + destruct (map_opt (ps (f_t f)) (x :: l)) as [ss|] eqn:M; [|discriminate Hg]. rewrite Hpos in Hg. inversion Hg; subst.
+      split; [|apply forallb_singletons; exact Htk]. pose proof (map_opt_cons_nonnil _ _ _ _ M) as N. destruct ss; [congruence|discriminate].
+  - (* Other *) destruct v; try discriminate Hg. destruct (field_action f) eqn:FA; try (destruct v; discriminate Hg).
+    + destruct (ps (f_t f) v) as [s|]; [|discriminate Hg]. inversion Hg; subst. split; [eexists; reflexivity|].
+      cbn [forallb group_fits]. rewrite Htk. reflexivity.
+    + destruct v as [b| | |]; try discriminate Hg. destruct b; inversion Hg; subst. split; reflexivity.
+    + destruct v as [|z| |]; try discriminate Hg. destruct ((0 <=? z) && (z <=? 255))%Z eqn:R; [|discriminate Hg].
+      destruct (z =? 0)%Z eqn:Z0; inversion Hg; subst. apply andb_prop in R. destruct R as [R1 R2].
+      apply Z.leb_le in R1, R2. apply Z.eqb_neq in Z0. split; [|apply forallb_repeat_nil].
+      exists (Z.to_nat z). split; [reflexivity|lia].
+Qed.
+
+(** explicit [num_args] consistent with the action: the argument takes values iff its action does *)
+Definition takes_ok (f : field) : Prop := takes f = action_takes_values (field_action f).
+
+Lemma printable_nodes : forall ns vs, fields_only ns = true ->
+  Forall (fun f => kind_ok (f_kind f) = true /\ ty_ok f = true /\ takes_ok f) (fields_of ns) ->
+  ok_nodes ns vs -> printable ns vs.
+Proof.
+  induction ns as [|n t IH]; intros vs Hfo Hall Hok f v gs Hat Hg; [destruct Hat|].
+  destruct n as [f'| |]; cbn [fields_only] in Hfo; try discriminate Hfo.
+  destruct vs as [|v' vt]; [destruct Hat|]. cbn [at_node fields_of ok_nodes ok_node] in *.
+  inversion Hall as [|? ? (Hk & Hty & Htk) Hall']; subst. destruct Hok as [[Hfok _] Hokt].
+  destruct Hat as [[-> ->]|Hat].
+  - apply (printable_of_ok f v gs Hfok Hty); [|exact Htk|exact Hg].
+    unfold f_is_positional. revert Hk. destruct (f_kind f); intros Hk; [reflexivity|reflexivity|discriminate Hk].
+  - apply (IH vt Hfo Hall' Hokt f v gs Hat Hg).
+Qed.
+
+(** the composed theorem with the class stated on the derive input alone *)
+Theorem roundtrip_parse_sound_ok d bin vs argv m :
+  opt_struct d -> Forall takes_ok (fields_of (d_nodes d)) -> ok_nodes (d_nodes d) vs ->
+  valid (with_bin (derive_cmd d) bin) = true ->
+  print d vs = Some argv ->
+  parse_top (derive_cmd d) (bin :: argv) = OOk m ->
+  extract d m = XOk vs.
+Proof.
+  intros Hs Htk Hok. apply roundtrip_parse_sound; [exact Hs| |exact Hok].
+  destruct Hs as (Hfo & Hof & _ & _). apply (printable_nodes _ _ Hfo); [|exact Hok].
+  apply Forall_forall. intros f Hf. pose proof (proj1 (Forall_forall _ _) Hof f Hf) as (H1 & H2 & _).
+  pose proof (proj1 (Forall_forall _ _) Htk f Hf) as H3. auto.
+Qed.
